@@ -31,9 +31,26 @@ pub fn run_table_cmd(t: &HashMap<&'static str, Box<dyn Runner>>, args: &[String]
                         let f = std::io::BufReader::new(std::fs::File::open(&args[2]).unwrap());
             // a case can abort the process (allocation failure, double free): the driver restarts after it
             let from: usize = args.get(3).and_then(|s| s.parse().ok()).unwrap_or(0);
+            // watchdog: a case that does not come back (a loop over 2^63 items ...) kills the process like any
+            // other fatal case; the driver restarts after it
+            static TICK: std::sync::atomic::AtomicU64 = std::sync::atomic::AtomicU64::new(0);
+            let limit: u64 = std::env::var("VERIF_CASE_TIMEOUT").ok().and_then(|s| s.parse().ok()).unwrap_or(30);
+            std::thread::spawn(move || {
+                let mut last = (0u64, std::time::Instant::now());
+                loop {
+                    std::thread::sleep(std::time::Duration::from_millis(200));
+                    let t = TICK.load(std::sync::atomic::Ordering::SeqCst);
+                    if t != last.0 { last = (t, std::time::Instant::now()); }
+                    else if t != 0 && last.1.elapsed().as_secs() >= limit {
+                        eprintln!("CASE-TIMEOUT: the case did not return within {limit} s");
+                        std::process::abort();
+                    }
+                }
+            });
             for (i, line) in f.lines().enumerate() {
                 let line = line.unwrap();
                 if i < from || line.trim().is_empty() { continue; }
+                TICK.fetch_add(1, std::sync::atomic::Ordering::SeqCst);
                 // announce the case before running it, so that an abort can be attributed
                 writeln!(out, "{}", json!({"start": i})).unwrap();
                 out.flush().unwrap();
@@ -55,6 +72,13 @@ pub fn run_table_cmd(t: &HashMap<&'static str, Box<dyn Runner>>, args: &[String]
             let mut ks: Vec<&str> = t.keys().cloned().collect();
             ks.sort();
             let mut g = crate::model::Gen::new(seed, maxlen);
+            // `long`: types whose outermost (or first ε-copied) part is a sequence, with lengths around buffer sizes
+            if args.get(5).map(|s| s.as_str()) == Some("long") {
+                g.long = true;
+                ks.retain(|k| ["String", "Box<str>", "Vec<u8>", "Vec<u16>", "Vec<u64>", "Vec<char>", "Vec<bool>", "Box<[u8]>", "Box<[u32]>",
+                               "Vec<ZPad>", "G<String,>", "G<Vec<u8>,>", "G<Vec<u64>,>", "Option<String>", "Option<Vec<u32>>",
+                               "G3<String,u8,Vec<u32>,>", "G2<u8,>", "G2<u64,>", "Bound<String>"].contains(k));
+            }
             for _ in 0..runs {
                 let k = ks[g.below(ks.len())];
                 let mut ev = vec![];
